@@ -53,20 +53,8 @@ Definition base_types : list rtype :=
   [RI8; RI16; RI32; RI64; RU8; RU16; RU32; RU64; RF32; RF64; RBool; RString; RNull; ROther; RDynamic].
 
 (* ------------------------------------------------------------------ dispatch arms (generated)
-   versus the aliases the VM model relies on: where Model/VmArith.v defines one opcode family as
-   another (t_arith_ii := g_arith, gd_arith_ffg := gd_arith_iig, ...) the two opcodes must be
-   handled by the same match arm of the dispatch loop. *)
-Definition model_aliases : list (opcode * opcode) :=
-  [(O_AddII, O_Add); (O_SubII, O_Sub); (O_MulII, O_Mul); (O_DivII, O_Div); (O_ModII, O_Mod);
-   (O_EqII, O_Eq); (O_NeII, O_Ne); (O_LtII, O_Lt); (O_LeII, O_Le); (O_GtII, O_Gt); (O_GeII, O_Ge);
-   (O_ShlII, O_Shl); (O_ShrII, O_Shr); (O_AndII, O_BitAnd); (O_OrII, O_BitOr); (O_XorII, O_BitXor);
-   (O_NotI, O_BitNot);
-   (O_AddFFG, O_AddIIG); (O_SubFFG, O_SubIIG); (O_MulFFG, O_MulIIG); (O_DivFFG, O_DivIIG); (O_ModFFG, O_ModIIG);
-   (O_LtFFG, O_LtIIG); (O_LeFFG, O_LeIIG); (O_GtFFG, O_GtIIG); (O_GeFFG, O_GeIIG); (O_EqFFG, O_EqIIG); (O_NeFFG, O_NeIIG)].
+   Structural facts about the dispatch loop, read off Extracted/DispatchArms.v. *)
 Definition in_arm (x : N) (arm : list N * list String.string) : bool := existsb (N.eqb x) (fst arm).
-Definition same_arm (x y : N) : bool := existsb (fun arm => in_arm x arm && in_arm y arm) dispatch_arms.
-Definition model_aliases_in_code : bool :=
-  forallb (fun p => same_arm (opcode_num (fst p)) (opcode_num (snd p))) model_aliases.
 (* every modelled opcode has an arm *)
 Definition modelled_opcodes_have_arms : bool :=
   forallb (fun p => existsb (in_arm (snd p)) dispatch_arms) dispatch_numbers.
